@@ -39,6 +39,7 @@ type stepSpec struct {
 
 type scenario struct {
 	TL    int        `json:"tl"`
+	Deact bool       `json:"deact_projector,omitempty"` // application variant: one sync projector, AFTER DEACTIVATE only
 	Steps []stepSpec `json:"steps"`
 	Note  string     `json:"note,omitempty"`
 }
@@ -83,7 +84,7 @@ type dumpT struct {
 	plog []evT
 	wlog map[uint64][]evT // by ws, ascending offset
 	recs map[uint64][]recT
-	proj [numProj]map[uint64][][2]uint64 // per projector, per ws: (WLog offset, stamp)
+	proj []map[uint64][][2]uint64 // per projector, per ws: (WLog offset, stamp)
 }
 
 type evT struct {
@@ -150,8 +151,8 @@ func (r *rig) dump(maxID uint64) (*dumpT, error) {
 	as := r.life.as
 	ctx := context.Background()
 	d := &dumpT{wlog: map[uint64][]evT{}, recs: map[uint64][]recT{}}
-	for j := range d.proj {
-		d.proj[j] = map[uint64][][2]uint64{}
+	for range r.views() {
+		d.proj = append(d.proj, map[uint64][][2]uint64{})
 	}
 	ids := map[uint64]map[uint64]bool{}
 	err := as.Events().ReadPLog(ctx, partID, istructs.FirstOffset, istructs.ReadToTheEnd, func(off istructs.Offset, e istructs.IPLogEvent) error {
@@ -199,8 +200,8 @@ func (r *rig) dump(maxID uint64) (*dumpT, error) {
 				d.recs[ws] = append(d.recs[ws], recT{id, uint64(rec.AsInt64(fldV)), rec.AsBool("sys.IsActive")})
 			}
 		}
-		for j := range qnViews {
-			kb := as.ViewRecords().KeyBuilder(qnViews[j])
+		for j, qn := range r.views() {
+			kb := as.ViewRecords().KeyBuilder(qn)
 			kb.PutInt64(viewP, 1)
 			err = as.ViewRecords().Read(ctx, istructs.WSID(ws), kb, func(k istructs.IKey, v istructs.IValue) error {
 				d.proj[j][ws] = append(d.proj[j][ws], [2]uint64{uint64(k.AsInt64(viewOff)), uint64(v.AsInt64(viewStamp) - kit.Epoch.UnixMilli())})
@@ -252,12 +253,12 @@ type result struct {
 
 // execute runs the scenario on a fresh rig
 func execute(sc scenario) (*result, error) {
-	r, err := newRig(sc.TL)
+	r, err := newRig(sc.TL, sc.Deact)
 	if err != nil {
 		return nil, err
 	}
 	defer r.close()
-	res := &result{sc: scenario{TL: sc.TL, Note: sc.Note}}
+	res := &result{sc: scenario{TL: sc.TL, Deact: sc.Deact, Note: sc.Note}}
 	nIns := uint64(0)
 	for _, st := range sc.Steps {
 		st.Faults = append([]fault{}, st.Faults...)
@@ -457,7 +458,7 @@ func (res *result) coq(lenient bool) string {
 			projs = append(projs, fmt.Sprintf("(%d, %s)", j, one))
 		}
 	}
-	return fmt.Sprintf("mkTrace %d %d %s %s %s %s %s %s", res.sc.TL, numProj, kit.Bool(lenient), kit.List(steps), kit.List(plog), wlog, recs, kit.List(projs))
+	return fmt.Sprintf("mkTrace %d %d %s %s %s %s %s %s %s", res.sc.TL, len(d.proj), kit.Bool(res.sc.Deact), kit.Bool(lenient), kit.List(steps), kit.List(plog), wlog, recs, kit.List(projs))
 }
 
 // ---- cases ----
@@ -506,6 +507,9 @@ func (res *result) emit(out *kit.Out) {
 	}
 	var key strings.Builder
 	fmt.Fprintf(&key, "tl%d", res.sc.TL)
+	if res.sc.Deact {
+		key.WriteString("D")
+	}
 	ci, firedAny, plogFaultOnEveryCrash := 0, false, true
 	for _, st := range res.sc.Steps {
 		if st.Kind != "cmd" {
@@ -579,11 +583,40 @@ func (res *result) emit(out *kit.Out) {
 	if f2 {
 		add("C01-F2:plog-error-after-effect-answered-5xx-yet-applied")
 	}
+	// signature of C01-F3: (variant with the AFTER DEACTIVATE projector) an event of the partition log
+	// deactivates a record and the projector's view has no row for it
+	f3 := false
+	if res.sc.Deact {
+		add("variant:after-deactivate-projector")
+		for _, x := range res.dump.plog {
+			deact := false
+			for _, c := range x.cuds {
+				if strings.HasPrefix(c, "EDeact") {
+					deact = true
+				}
+			}
+			if !deact {
+				continue
+			}
+			found := false
+			for _, row := range res.dump.proj[0][x.ws] {
+				if row[0] == x.woff {
+					found = true
+				}
+			}
+			if !found {
+				f3 = true
+			}
+		}
+	}
+	if f3 {
+		add("C01-F3:deactivation-missing-from-after-deactivate-projection")
+	}
 	out.Emit(kit.Case{Coq: res.coq(false), Key: key.String(), Nontrivial: firedAny, Desc: res.desc(false), Tags: tags})
-	if res.crashes > 0 || f2 {
+	if res.crashes > 0 || f2 || f3 {
 		lt := []string{}
 		for _, t := range tags {
-			if !strings.HasPrefix(t, "F11:") && !strings.HasPrefix(t, "C01-F2:") {
+			if !strings.HasPrefix(t, "F11:") && !strings.HasPrefix(t, "C01-F2:") && !strings.HasPrefix(t, "C01-F3:") {
 				lt = append(lt, t)
 			}
 		}
